@@ -103,6 +103,7 @@ pub fn lw_pool(quick: bool) -> Vec<LwSpec> {
         ("ts-heavy", vec![send(0, 0, 0, TimeSensitive, 1448), send(0, 0, 0, TimeSensitive, 1448), send(0, 0, 1, TimeSensitive, 700), send(1, 0, 0, TimeSensitive, 20), send(1, 0, 0, Reliable, 21), send(3, 0, 1, TimeSensitive, 22)], LwCfg { bw: [5000, 5000], ..LwCfg::small() }),
         ("alloc-stall", (0..5).map(|i| send(0, 0, 0, if i % 2 == 0 { Reliable } else { TimeSensitive }, 2000 + i)).collect(), LwCfg { pwin: 8, fwin: 8, rx_alloc: [3 * FRAG, 3 * FRAG], ..LwCfg::small() }),
         ("alloc-3-fragments", (0..6).map(|i| send(i / 3, 0, (i % 2) as u8, if i % 2 == 0 { Reliable } else { Unreliable }, [2000, 1448, 1449, 100, 2897, 1][i])).collect(), LwCfg { pwin: 8, fwin: 8, rx_alloc: [3 * FRAG, 3 * FRAG], ..LwCfg::small() }),
+        ("alloc-mixed-small-and-near-full", vec![send(0, 0, 0, Unreliable, 100), send(0, 0, 0, Reliable, 4200), send(0, 0, 1, Unreliable, 50), send(1, 0, 0, Reliable, 3000), send(1, 0, 1, Unreliable, 1448), send(1, 0, 0, Reliable, 1449)], LwCfg { pwin: 8, fwin: 8, rx_alloc: [3 * FRAG, 3 * FRAG], ..LwCfg::small() }),
         ("alloc-exact-fit", vec![send(0, 0, 0, Reliable, 4344), send(0, 0, 1, Persistent, 10), send(1, 0, 0, Unreliable, 1448), send(1, 0, 1, Reliable, 2896)], LwCfg { pwin: 4, fwin: 8, rx_alloc: [4344, 4344], ..LwCfg::small() }),
         ("partial-then-idle-then-full", vec![send(0, 0, 0, Unreliable, 3000), send(0, 0, 1, TimeSensitive, 1400), send(200, 0, 0, Reliable, 4344), send(201, 0, 1, Unreliable, 1448)], LwCfg { pwin: 4, fwin: 8, rx_alloc: [4344, 4344], ..LwCfg::small() }),
         ("window-stall", (0..10).map(|i| send(i / 5, 0, (i % 2) as u8, MODES[i % 4], 10 + i)).collect(), LwCfg { pwin: 2, fwin: 4, ..LwCfg::small() }),
@@ -145,6 +146,17 @@ pub fn lw_pool(quick: bool) -> Vec<LwSpec> {
         let mut env = env_live(8, if quick { 3 } else { 6 });
         env.fates = &[Fate::Deliver, Fate::Drop]; env.deltas = &[20];
         v.push(sp(&format!("bulk.fill-window.{}", cname), &cfg, &s, env, 1));
+    }
+    // F10: one Reliable packet followed at once by a long run of small Unreliable ones (parent leads of 1..300: every datagram
+    // header encoding and its boundaries 127/128, 255/256 occur), same channel and alternating channels, warm
+    for (name, chans) in [("same-channel", 1usize), ("two-channels", 2)] {
+        let ops: Vec<Op> = std::iter::once(send(0, 0, 0, Reliable, 20)).chain((0..300usize).map(|i| send(0, 0, (i % chans) as u8, Unreliable, 4 + i % 8))).chain(std::iter::once(send(1, 0, 0, Reliable, 21))).collect();
+        let s = Arc::new(ScriptInfo::new(warm(&ops, 30)));
+        let mut env = env_live(30, if quick { 3 } else { 6 });
+        env.fates = &[Fate::Deliver, Fate::Drop]; env.deltas = &[20];
+        // a round trip of 10 rounds: the whole run leaves before the Reliable packet is acknowledged
+        let cfg = LwCfg { latency: 5, ..wide.clone() };
+        v.push(sp(&format!("bulk.long-unreliable-run.{}", name), &cfg, &s, env, 1));
     }
     v
 }
